@@ -9,7 +9,7 @@ from . import common, tools
 
 ID = "C13"
 LEVEL = "fault_enumeration"
-BUDGET = {"quick": 4800, "thorough": 48000}
+BUDGET = {"quick": 6400, "thorough": 64000}
 WALL_CAP = {"quick": 600, "thorough": 5400}
 TOOLS = ["colander", "combine", "chef", "mandoline", "whip", "marinate", "chk2plt",
          "taste", "menu", "minuterie", "pestle"]
@@ -161,7 +161,7 @@ def run_case(ctx):
     else:
         tool = tools.make_tool(name)
     tool.draw(ctx, src)
-    arms = [("faults", 6), ("clean", 1), ("unreadable", 2)]
+    arms = [("faults", 6), ("clean", 1), ("unreadable", 6)]      # (an unreadable-input case costs a tenth of a fault case)
     if name in ("mandoline", "whip", "pestle"):
         arms.append(("unknown", 2))
     if tool.writer:
@@ -188,7 +188,14 @@ def run_case(ctx):
     if arm == "rerun":
         # the same request once more, over the output the first run left behind (a re-submitted job): whatever
         # the first run shares with its input (links, handles, caches) must not let the second one reach into it
-        r2 = execute(ctx, tool, 0, sched_seed + 1, again=pilot)
+        first = pilot
+        if hasattr(tool, "varied") and src.flag("rerun.varied"):
+            # ... or a different request of the same tool wrote that output first (another selection)
+            shutil.rmtree(pilot.root, ignore_errors=True)
+            first = execute(ctx, tool.varied(), 0, sched_seed)
+            check_run(ctx, tool, first, {**sig, "arm": "rerun-first"}, "earlier run with another selection")
+            ctx.probe("rerun_after_varied_request")
+        r2 = execute(ctx, tool, 0, sched_seed + 1, again=first)
         check_run(ctx, tool, r2, {**sig, "arm": "rerun"}, "second run of the same request")
         ctx.nontrivial = True
         ctx.probe("rerun_over_own_output")
@@ -230,15 +237,21 @@ def run_case(ctx):
         heads = [f for f in files if f.endswith("Header")]
         lvh = [f for f in files if f.endswith("_H")]
         bins = [f for f in files if "_D_" in f]
-        cls = src.choice("unreadable.class", ["Header", "level-header", "binary"])
+        kind = src.choice("unreadable.kind", ["EIO", "EACCES", "EIO-MID", "EIO-MID"])
+        # (part-way faults are mostly placed in binary files: that is where sequential readers look for the
+        # next box and for the end of the file)
+        cls = src.choice("unreadable.class", ["Header", "level-header", "binary"] +
+                         (["binary", "binary"] if kind == "EIO-MID" else []))
         pool_ = {"Header": heads, "level-header": lvh, "binary": bins}[cls] or heads
         rel = pool_[src.draw("unreadable.which", 0, len(pool_) - 1)]
-        kind = src.choice("unreadable.kind", ["EIO", "EACCES", "EIO-MID", "EIO-MID"])
         spec = kind
         if kind == "EIO-MID":
             # the file opens, but becomes unreadable part-way: reads before that point are served (short),
             # the read that needs the bad byte gets EIO (np.fromfile: a short array, as fread gives it)
-            where = src.choice("unreadable.where", ["middle", "last-byte", "after-first-line", "first-byte"])
+            where = src.choice("unreadable.where", ["middle", "last-byte", "after-first-line", "first-byte",
+                                                    "fab-header", "fab-header", "fab-header", "fab-header+5"])
+            if where.startswith("fab-header"):
+                where = f"fab-header:{src.draw('unreadable.fab', 0, 5)}:{5 if where.endswith('+5') else 0}"
             spec = (kind, where)
             kind = f"{kind}@{where}"
         root1 = os.path.join(ctx.scratch, "run1")
